@@ -50,6 +50,12 @@ CLAIMED = {
         note="The property's lexical classes are fixed in tables (int: optional sign + digits; hex: optional 0x + hex digits; float: decimal/exponent, finite); numbers below 2^31; the config-server arrival path is covered by C14/C15.",
         design_ref="DESIGN.md section 3, C06",
     ),
+    "C03": dict(
+        technique="TLC exploration of sessions of the KStore model (spec/MC_Hist.tla) in which reads that fill caches are interleaved with set/unset/reset/load; every explored transition replayed on a fresh real instance without cache flushes; observations validated by TLC (spec/MC_HistCheck.tla) against the from-scratch evaluation of spec/KEval.tla, plus the equalities recompute / fresh-instance / re-read evaluated on the observations",
+        text="Model checking: TLC enumerates all action sequences up to the bound over (user values, picks, abstract cache-validity); each transition is executed on the implementation, values are read in a seeded order and compared by TLC with the specification's from-scratch values, with the values after _invalidate_all(), with a fresh instance that received the same user state in another order, and with a second read in another order.",
+        note="Sessions of <= 3 actions; quick keeps every history of the form read..change and stride-samples the rest (140 per program); the invalidation graph itself (_dependents) is not compared structurally, only through behaviour; one program per dependency-edge kind (F-edge) is always included.",
+        design_ref="DESIGN.md section 3, C03",
+    ),
 }
 
 REASON_PENDING = "check not built yet in this session (planned in DESIGN.md section 3); not claimed until its TLA+ model and conformance harness exist"
